@@ -109,23 +109,41 @@ Print Assumptions C13_composite_is_fold.
 
 (* for sources with fixed answers the data is the fold of the merge and the version the chain of hashes *)
 Theorem C13_composite_const_sources : forall H ml ms outs sys pd pv d v,
-  chain_state H ml ms sys pd pv (map (fun o => const_source (Ok o) None) outs) = Ok (d, v) ->
+  chain_state H ml ms sys pd pv (map (fun o => const_source (Ok o) (Ok None)) outs) = Ok (d, v) ->
   fold_left (fun acc nd => bind acc (fun a => merge ml ms a nd)) (map fst outs) (Ok pd) = Ok d /\
   v = chain_version H pv (map snd outs).
 Proof. intros. split; [eapply chain_const_data | eapply chain_const_version]; eauto. Qed.
 Print Assumptions C13_composite_const_sources.
 
 Theorem C13_find_first_non_none : forall srcs k v log out, comp_find 0 srcs k v = (log, out) ->
-  match out with
-  | None => (forall s, In s srcs -> find_system s k v = None) /\ log = seq 0 (length srcs)
-  | Some x => exists j s, nth_error srcs j = Some s /\ find_system s k v = Some x /\
-                (forall j' s', (j' < j)%nat -> nth_error srcs j' = Some s' -> find_system s' k v = None) /\
-                log = seq 0 (S j)
-  end.
+  (out = Ok None -> (forall s, In s srcs -> find_system s k v = Ok None) /\ log = seq 0 (length srcs)) /\
+  (out <> Ok None ->
+     (* an id - or the exception of a source, which is not swallowed - comes from the first source that did not
+        answer None; no source after it is asked *)
+     exists j s, nth_error srcs j = Some s /\ find_system s k v = out /\
+                 (forall j' s', (j' < j)%nat -> nth_error srcs j' = Some s' -> find_system s' k v = Ok None) /\
+                 log = seq 0 (S j)).
 Proof.
-  intros srcs k v log [x|] E; [eapply comp_find_some | eapply comp_find_none]; eauto.
+  intros srcs k v log out E. split.
+  - intros ->. eapply comp_find_none; eauto.
+  - intros Hn. eapply comp_find_answer; eauto.
 Qed.
 Print Assumptions C13_find_first_non_none.
+
+(* one long-lived composite: it keeps no state, so in a history every call returns what a new composite over
+   the sources as they answer at that moment returns (the model of a history is the map of the single call) *)
+Theorem C13_composite_is_stateless : forall ml ms ht steps,
+  run_model (CHist ml ms ht steps) =
+  OHist (map (fun st => match run_model (CChain ml ms ht (st_srcs st) (st_sys st) (st_pd st) (st_pv st) (st_fk st) (st_fv st)) with
+                        | OChain g r f fr => (g, r, f, fr)
+                        | _ => ([], Err TypeError, [], Ok None)
+                        end) steps).
+Proof.
+  intros. cbn [run_model]. f_equal. apply map_ext. intros st.
+  destruct (comp_get (table_H ht) ml ms 0 (map mk_source (st_srcs st)) (st_sys st) (st_pd st) (st_pv st)) as [g r].
+  destruct (comp_find 0 (map mk_source (st_srcs st)) (st_fk st) (st_fv st)) as [f fr]. reflexivity.
+Qed.
+Print Assumptions C13_composite_is_stateless.
 
 (* with the same preceding version, different constituent versions give a different composite version,
    provided the hash has fixed-length output and does not collide on the strings hashed in the two runs *)
@@ -179,9 +197,9 @@ Proof.
 Qed.
 
 Example C13_nonvacuous_chain :
-  run_model (CChain false true [] [(Ok ([(sa, VInt 1)], [118%N]), None); (Ok ([(sb, VInt 2)], [119%N]), Some [115%N])]
+  run_model (CChain false true [] [(Ok ([(sa, VInt 1)], [118%N]), Ok None); (Ok ([(sb, VInt 2)], [119%N]), Ok (Some [115%N]))]
                     [115%N] [] [112%N] [107%N] VNone)
   = OChain [(0%nat, [115%N], [], [112%N]); (1%nat, [115%N], [(sa, VInt 1)], [63; 112; 124; 118]%N)]
            (Ok ([(sa, VInt 1); (sb, VInt 2)], [63; 63; 112; 124; 118; 124; 119]%N))
-           [0; 1]%nat (Some [115%N]).
+           [0; 1]%nat (Ok (Some [115%N])).
 Proof. vm_compute. reflexivity. Qed.
